@@ -575,6 +575,7 @@ class Ref(object):
         total = sum(len(self.ext_chars) ** n for n in range(self.nleaves + 1))
         self.bf_feasible = total <= self.BF_LIMIT
         self._bf = {}
+        self.re_cut_off = False
 
     def enc(self, seq):
         ch = self.ch
@@ -619,25 +620,72 @@ class Ref(object):
             self._aut = Automaton(self.ast)
         return self._aut
 
-    # -- combined, cross-checked answers
+    # -- combined, cross-checked answers.  Python's re backtracks exponentially on some generated patterns
+    # (nested repetitions of parts that can match nothing), so here every re call runs under a CPU-time alarm
+    # (SRE polls for signals); a pattern whose re call is cut off is judged by the automaton alone from then on
+    # and counted (self.re_cut_off).  Verdicts never depend on the alarm, only how many engines took part.
+    RE_CPU_LIMIT = 0.15
+
+    def _guarded(self, fn, *args):
+        if self.re_cut_off:
+            raise ReTimeout()
+        try:
+            return guarded_call(self.RE_CPU_LIMIT, fn, *args)
+        except ReTimeout:
+            self.re_cut_off = True
+            raise
+
     def viable(self, seq):
-        a = self.viable_re(seq)
-        st = self.automaton.run(seq)
-        b = self.automaton.viable(st)
-        bf = self.bf_feasible and len(seq) + self.nleaves <= self.BF_MAXLEN
-        if a != b or (bf and self.viable_bf(seq) != a):
+        state = self.automaton.run(seq)
+        b = self.automaton.viable(state)
+        try:
+            a = self._guarded(self.viable_re, seq)
+            bf = self.bf_feasible and len(seq) + self.nleaves <= self.BF_MAXLEN
+            c = self._guarded(self.viable_bf, seq) if bf else None
+        except ReTimeout:
+            return b
+        if a != b or (c is not None and c != a):
             raise OracleDisagreement("viability of %r for %r: prefix-re %r automaton %r brute-force %r" % (
-                seq, render(self.ast), a, b, self.viable_bf(seq) if bf else None))
+                seq, render(self.ast), a, b, c))
         return a
 
     def complete(self, seq):
-        a = self.fullmatch(seq)
-        st = self.automaton.run(seq)
-        b = st is not None and self.automaton.accepting(st)
+        state = self.automaton.run(seq)
+        b = state is not None and self.automaton.accepting(state)
+        try:
+            a = self._guarded(self.fullmatch, seq)
+        except ReTimeout:
+            return b
         if a != b:
             raise OracleDisagreement("fullmatch of %r for %r: re %r automaton %r" % (
                 seq, render(self.ast), a, b))
         return a
+
+
+class ReTimeout(Exception):
+    pass
+
+
+def _alarm(signum, frame):
+    raise ReTimeout()
+
+
+def guarded_call(limit, fn, *args):
+    """fn(*args) under a CPU-time alarm (main thread only; elsewhere unguarded)."""
+    import signal
+    import threading
+
+    if threading.current_thread() is not threading.main_thread():
+        return fn(*args)
+    old = signal.signal(signal.SIGVTALRM, _alarm)
+    try:
+        signal.setitimer(signal.ITIMER_VIRTUAL, limit)
+        try:
+            return fn(*args)
+        finally:
+            signal.setitimer(signal.ITIMER_VIRTUAL, 0)
+    finally:
+        signal.signal(signal.SIGVTALRM, old)
 
 
 # ---------------------------------------------------------------------------
